@@ -46,6 +46,14 @@ RULE = ('conversion: base model (AUTOUGH2 for ->TOUGH2, TOUGH2 for ->AUTOUGH2) p
         'taken after its own conversion), and is repeated after two primer conversions with the other solver class, '
         'other MOP digits, MP and the opposite direction, whose results are then edited in place (all cases in quick; '
         'singles and every 8th pair in thorough) - the repeat must show the same canonical form, file and verdict.  '
+        'History dimension (one object): from each of 6 base models (AUTOUGH2 with / without EOS name in MULTI / '
+        'without MULTI / read from file, TOUGH2 with / without MULTI) every legal sequence of <= d operations '
+        '(d = 4 quick, 5 thorough) from write, write + read back into the same object, json export, convert_to_TOUGH2, '
+        'convert_to_AUTOUGH2 (default / simulator AUTOUGH2 + EWC; thorough also MP for both), simulator string := '
+        'AUTOUGH2.2EWC / AUTOUGH2.2W, MULTI EOS name := EWAV / removed, MOP(11), MOP(21) edited in place; whenever '
+        'the last operation is an observation (file written, JSON exported, model after a conversion or read-back) '
+        'and an earlier one is a write or export, it is compared (exactly) with the same observation made by a '
+        'freshly built object that went through the conversions, read-backs and edits only.  '
         'A case is non-trivial '
         'when the call under test ran on a model that differs from every other case (key = direction + atom set, or '
         'the export configuration); distinct = distinct keys')
@@ -68,15 +76,19 @@ ASSUMPTIONS = [
     'by the existence of shared state; edits made in place to a primer model are ordinary attribute/dict/list edits '
     'of that model',
     'a GOFT request left for the block of a just-deleted (AUTOUGH2-only) generator is accepted either way',
+    'history dimension: write() and json() are observers - by the statement (export / file round trip keep the model) '
+    'nothing they did earlier, including an export that refused the model, may show in a later file, export or '
+    'converted model; what read() does to an object that already holds a model is not fixed by the statement and is '
+    'the same call in both chains; the reference object is never written or exported before its one observation',
     'values are chosen exactly printable in their fields (<= 4 significant digits), so round-trip comparison uses '
     'relative tolerance 1e-6',
 ]
-BOUNDS = {'quick': {'second_object': 'every consecutive pair of cases of a unit', 'repeat_after_primers': 'every case',
+BOUNDS = {'quick': {'history_depth': 4, 'history_bases': 6, 'history_alphabet': 11, 'second_object': 'every consecutive pair of cases of a unit', 'repeat_after_primers': 'every case',
                     'export_origins': 4,
                     'deviations': 'k <= 1 (+ MOP10 x MOP23 x simulator family block, + MP x every MOP single, '
                                   '+ no-SOLVR x every MOP single for ->AUTOUGH2)',
                     'export_boundary_geometries': 4, 'export_generator_pairs': 'none'},
-          'thorough': {'second_object': 'every consecutive pair of cases of a unit',
+          'thorough': {'history_depth': 5, 'history_bases': 6, 'history_alphabet': 13, 'second_object': 'every consecutive pair of cases of a unit',
                        'repeat_after_primers': 'k<=1 cases and every 8th pair', 'export_origins': 4,
                        'deviations': 'k <= 2 (in pairs, MOP deviations only at converter positions '
                                      '10,12,14,16,17,20,21,22,23,24), plus the quick crossed blocks',
@@ -1678,6 +1690,311 @@ def second_pass(tier, index, atoms):
 
 
 # =========================================================================================================
+# histories on ONE model object: (write | read back | convert | export | edit) sequences to a stated depth.
+# Every observation (file written, JSON exported, model after a conversion / read-back / edit) is compared with
+# the same observation on a history-free reference: a freshly built object that went through the state-changing
+# operations only (conversions, edits, reading back its own file), never through an earlier write or export.
+# Writing and exporting are observers: by the statement they keep the model, so what they did earlier (also when
+# the export refused the model) must not show in anything observed later.  What reading a file into an object
+# that already holds a model does is not fixed by the statement: it is the same call in both chains.
+
+HIST_BASES = ['A', 'A-multi-without-eos', 'A-no-multi', 'T', 'T-no-multi', 'A-multi-without-eos-file']
+HIST_OPS = {'quick': ['W', 'R', 'J', 'T', 'A', 'A:EWC', 'S:EWC', 'S:W', 'E:EWAV', 'E:-', 'O'],
+            'thorough': ['W', 'R', 'J', 'T', 'A', 'A:EWC', 'S:EWC', 'S:W', 'E:EWAV', 'E:-', 'O', 'T:MP', 'A:MP']}
+HIST_DEPTH = {'quick': 4, 'thorough': 5}
+HIST_PREFIX = {'quick': 1, 'thorough': 2}          # length of the sequence prefix that makes a work unit
+OBSERVERS = ('W', 'J')
+HIST_EDITS = ('S', 'E', 'O')
+OP_SITE = {'W': 'write', 'R': 'read', 'J': 'json', 'T': 'convert_to_TOUGH2', 'A': 'convert_to_AUTOUGH2',
+           'S': 'simulator-edit', 'E': 'eos-edit', 'O': 'option-edit'}
+
+
+def hist_base(name):
+    """A model for the history part: the conversion base models without the generator Waiwera has no counterpart
+    for (so that an export gets to its end), with / without the EOS name in MULTI, built in memory or read."""
+    from t2data import t2data
+    fromfile = name.endswith('-file')
+    core_name = name[:-5] if fromfile else name
+    flavour = core_name[0]
+    dat = base_model(flavour)
+    key = (BLK['b1'], 'cdx 1')
+    gen = dat.generator[key]
+    if 'generator' in dat.short_output:
+        dat.short_output['generator'] = [x for x in dat.short_output['generator'] if x is not gen]
+    dat.delete_generator(key)
+    dat.parameter['default_incons'] = [1.e5, 20., 0., 0.]      # enough primary variables for every EOS exported
+    dat.incon = {BLK['a2']: [None, [2.e5, 30., 0., 0.]]}
+    if core_name.endswith('-multi-without-eos'):
+        dat.multi.pop('eos', None)
+    elif core_name.endswith('-no-multi'):
+        dat.multi = {}
+    dat.filename = 'c20h.dat'
+    if fromfile:
+        path = os.path.join(core.scratch(), 'c20hb.dat')
+        with quiet():
+            dat.write(path)
+            dat = t2data(path)
+        dat.filename = 'c20h.dat'
+    return dat
+
+
+def hist_legal(op, state):
+    """state: (type, multi non-empty, multi has an EOS name) of the reference model before the operation."""
+    typ, has_multi, has_eos = state
+    k = op.split(':')[0]
+    if k == 'T' or k == 'S':
+        return typ == 'AUTOUGH2'
+    if k == 'A':
+        return typ == 'TOUGH2'
+    if op == 'E:-':
+        return typ == 'AUTOUGH2' and has_eos
+    if k == 'E':
+        return typ == 'AUTOUGH2' and has_multi
+    return True
+
+
+def hist_state(dat):
+    return (dat.type, bool(dat.multi), bool(dat.multi.get('eos')))
+
+
+def hist_apply(dat, op):
+    """Apply one operation to the model; -> (model, observation)."""
+    k, _, arg = op.partition(':')
+    path = os.path.join(core.scratch(), 'c20h.dat')
+    try:
+        with quiet():
+            if k == 'W' or k == 'R':
+                fn = dat.filename
+                for stale in (path, os.path.splitext(path)[0] + '.pdat'):
+                    if os.path.exists(stale):
+                        os.remove(stale)
+                dat.write(path)
+                dat.filename = fn
+                if k == 'W':
+                    with open(path) as f:
+                        return dat, ('file', f.read())
+                dat.read(path)
+                dat.filename = fn
+            elif k == 'J':
+                j = dat.json(small_geo(), 'c20h.exo')
+                return dat, ('json', norm(cval(j)))
+            elif k == 'T':
+                dat.convert_to_TOUGH2(warn=False, MP=(arg == 'MP'))
+            elif k == 'A':
+                if arg == 'MP':
+                    dat.convert_to_AUTOUGH2(warn=False, MP=True)
+                elif arg:
+                    dat.convert_to_AUTOUGH2(warn=False, simulator='AUTOUGH2', eos=arg)
+                else:
+                    dat.convert_to_AUTOUGH2(warn=False)
+            elif k == 'S':
+                dat.simulator = 'AUTOUGH2.2' + arg
+            elif k == 'E':
+                if arg == '-':
+                    dat.multi.pop('eos', None)
+                else:
+                    dat.multi['eos'] = arg
+            elif k == 'O':
+                dat.parameter['option'][11] = (int(dat.parameter['option'][11]) + 1) % 10
+                dat.parameter['option'][21] = (int(dat.parameter['option'][21]) + 3) % 7
+    except core.CaseTimeout:
+        raise
+    except Exception as e:
+        return dat, ('raises', type(e).__name__, lib_site(e), str(e)[:200])
+    return dat, ('model', norm(canon(dat)))
+
+
+def hist_reduced(seq):
+    """The state-changing operations of a history (observers dropped)."""
+    return tuple(op for op in seq if op not in OBSERVERS)
+
+
+_HREF = {}
+
+
+def hist_reference(base, seq):
+    """History-free model after the state-changing operations of seq.  -> (model, state, dead)"""
+    dat = hist_base(base)
+    dead = False
+    for op in hist_reduced(seq):
+        dat, obs = hist_apply(dat, op)
+        if obs[0] == 'raises':
+            dead = True
+            break
+    return dat, hist_state(dat), dead
+
+
+def hist_ref_observation(base, seq, op):
+    """Observation of op made by a history-free model that is in the state seq leads to (memoised per worker:
+    the reference depends on the state-changing operations only)."""
+    k = (base, hist_reduced(seq), op)
+    if k not in _HREF:
+        dat, state, dead = hist_reference(base, seq)
+        _HREF[k] = hist_apply(dat, op)[1]
+    return _HREF[k]
+
+
+_HSTATE = {}
+
+
+def hist_state_after(base, seq):
+    k = (base, hist_reduced(seq))
+    if k not in _HSTATE:
+        dat, state, dead = hist_reference(base, seq)
+        _HSTATE[k] = (state, dead)
+    return _HSTATE[k]
+
+
+def hist_observe(base, seq, op):
+    """The same observation by ONE object that lived through all of seq."""
+    dat = hist_base(base)
+    for o in seq:
+        dat, obs = hist_apply(dat, o)
+        if obs[0] == 'raises' and o not in OBSERVERS:
+            return ('raises-earlier',) + obs[1:]
+    return hist_apply(dat, op)[1]
+
+
+def hist_diff(a, b):
+    """Names of what differs between two observations of the same kind."""
+    if a[0] != b[0]:
+        return ['outcome']
+    if a[0] == 'file':
+        return ['file']
+    if a[0] == 'raises':
+        return ['raises:%s@%s' % (a[1], a[2])]
+    da, db = dict(a[1]), dict(b[1])
+    out = sorted(k for k in set(da) | set(db) if da.get(k) != db.get(k))
+    return [('%s:%s' % (a[0], k)) for k in out] or [a[0]]
+
+
+def hist_describe(a, b, fields):
+    if a[0] == 'file' and b[0] == 'file':
+        x, y = a[1].split('\n'), b[1].split('\n')
+        d = [(p, q) for p, q in zip(x, y) if p != q][:2] or [('%d lines' % len(x), '%d lines' % len(y))]
+        return 'lines (with history, history-free): %r' % (d,)
+    if a[0] == b[0] and a[0] in ('json', 'model'):
+        da, db = dict(a[1]), dict(b[1])
+        k = fields[0].split(':', 1)[1] if ':' in fields[0] else None
+        return '%s with history %s, history-free %s' % (k, brief(da.get(k)), brief(db.get(k)))
+    return 'with history %s, history-free %s' % (brief(a), brief(b))
+
+
+def hist_compare(base, seq, op):
+    """-> (fields that differ, observation with history, reference observation)"""
+    ref = hist_ref_observation(base, seq, op)
+    got = hist_observe(base, seq, op)
+    if got == ref:
+        return [], got, ref
+    return hist_diff(got, ref), got, ref
+
+
+def hist_legal_seq(base, seq):
+    for i, op in enumerate(seq):
+        state, dead = hist_state_after(base, seq[:i])
+        if dead or not hist_legal(op, state):
+            return False
+    return True
+
+
+def hist_minimise(base, seq, op, fields):
+    """Drop earlier operations one at a time while the same difference stays (names the history that matters)."""
+    seq = list(seq)
+    changed = True
+    while changed:
+        changed = False
+        for i in range(len(seq)):
+            sub = tuple(seq[:i] + seq[i + 1:])
+            if not hist_legal_seq(base, sub + (op,)):
+                continue
+            f2, _g, _r = hist_compare(base, sub, op)
+            if f2 and f2[0] == fields[0]:
+                seq = list(sub)
+                changed = True
+                break
+    return tuple(seq)
+
+
+def hist_case(base, seq, op):
+    """-> [(sig, what)] for one history seq + (op)."""
+    fields, got, ref = hist_compare(base, seq, op)
+    if not fields:
+        return []
+    small = hist_minimise(base, seq, op, fields)
+    site = OP_SITE[op.split(':')[0]]
+    after = '>'.join(OP_SITE[o.split(':')[0]] for o in small) or 'nothing'
+    out = []
+    for f in fields[:3]:
+        out.append(('C20|%s|history-dependent:%s|after=%s' % (site, f, after),
+                    'base model %s: one object that went through %r and then %r shows something else than a fresh '
+                    'object brought to the same state by %r alone (smallest history that matters: %r): %s'
+                    % (base, list(seq), op, list(hist_reduced(seq)), list(small), hist_describe(got, ref, [f]))))
+    return out
+
+
+def hist_explore(base, seq, depth, rec, tier):
+    """seq (legal, already evaluated as a whole) -> evaluate every legal extension up to depth."""
+    if len(seq) >= depth:
+        return
+    state, dead = hist_state_after(base, seq)
+    if dead:
+        return
+    for op in HIST_OPS[tier]:
+        if hist_legal(op, state):
+            hist_eval(base, seq, op, rec)
+            hist_explore(base, seq + (op,), depth, rec, tier)
+
+
+def hist_has_history(seq):
+    """Without an observer among the earlier operations the object IS the reference: nothing to compare."""
+    return any(o in OBSERVERS for o in seq)
+
+
+def hist_eval(base, seq, op, rec):
+    case = {'part': 'hist', 'base': base, 'seq': list(seq), 'op': op}
+    if op.split(':')[0] in HIST_EDITS:
+        return          # an edit by the harness is no observation
+    if not hist_has_history(seq):
+        rec.count('hist_sequences_without_observer_not_compared')
+        return
+    try:
+        with core.timelimit(3 * CASE_SECONDS):
+            viol = hist_case(base, seq, op)
+    except core.CaseTimeout:
+        viol = [('C20|%s|timeout|history' % OP_SITE[op.split(':')[0]], 'history %r + %r did not finish'
+                 % (list(seq), op))]
+    rec.case(('hist', base, seq, op), nontrivial=True,
+             outcome='history:%s:%s' % (OP_SITE[op.split(':')[0]], 'differs' if viol else 'same'))
+    rec.count('hist_sequences_len%d' % (len(seq) + 1))
+    for sig, what in viol:
+        rec.violation(sig, what, case)
+
+
+def hist_units(tier):
+    us = []
+    ops = HIST_OPS[tier]
+    P = HIST_PREFIX[tier]
+    for b in HIST_BASES:
+        for n in range(1, P + 1):
+            for pre in itertools.product(ops, repeat=n):
+                us.append(('hist', b, list(pre)))
+    return us
+
+
+def run_hist_unit(unit, tier, rec):
+    _p, base, pre = unit
+    pre = tuple(pre)
+    _HREF.clear()
+    _HSTATE.clear()
+    if not hist_legal_seq(base, pre):
+        return
+    hist_eval(base, pre[:-1], pre[-1], rec)
+    if len(pre) == HIST_PREFIX[tier]:
+        hist_explore(base, pre, HIST_DEPTH[tier], rec, tier)
+    rec.sample({'history-base': base, 'prefix': list(pre)})
+
+
+# =========================================================================================================
 # framework interface
 
 def units(tier):
@@ -1687,6 +2004,7 @@ def units(tier):
             us.append(('conv', d, i))
     for i in range(NCHUNK_EXPORT[tier]):
         us.append(('export', '', i))
+    us.extend(hist_units(tier))
     return us
 
 
@@ -1705,6 +2023,8 @@ def jsonable_atoms(atoms):
 
 
 def run_unit(unit, tier, rec):
+    if unit[0] == 'hist':
+        return run_hist_unit(unit, tier, rec)
     part, direction, i = unit
     allcfg = cfg_list(part, direction, tier)
     n = NCHUNK[tier] if part == 'conv' else NCHUNK_EXPORT[tier]
@@ -1783,6 +2103,9 @@ def finalize(rec, tier):
         'export generator type x block': 'crossed; pairs of types %s' % ('crossed' if tier == 'thorough' else 'not explored'),
         'export geometry family x model origin (geometry / file / converted+file / converted+file+back)': 'crossed',
         'conversion case x previous model alive (no interference)': 'every consecutive pair within a unit',
+        'one object x operation history (write / read back / convert / export / edit)':
+            'every legal sequence to depth %d from %d base models, alphabet of %d operations'
+            % (HIST_DEPTH[tier], len(HIST_BASES), len(HIST_OPS[tier])),
         'conversion case x primer conversions (order independence)': 'all cases' if tier == 'quick' else 'k<=1 and every 8th pair',
     }}
     for d in ('A2T', 'T2A'):
@@ -1802,6 +2125,10 @@ def replay(case):
         with core.timelimit(CASE_SECONDS):
             viol, outcome = export_case(cfg)
         return viol
+    if case.get('part') == 'hist':
+        _HREF.clear()
+        _HSTATE.clear()
+        return hist_case(case['base'], tuple(case['seq']), case['op'])
     atoms = tuple(tuple(a) for a in case['atoms'])
     d = case['direction']
     if case.get('part') == 'conv2':
